@@ -14,7 +14,7 @@ import (
 	mesos "github.com/mesos/mesos-go/api/v1/lib"
 )
 
-var cfg = vrt.Config{Preempt: coresim.InterComponent, FreeSwitchCost: true, Horizon: 30 * time.Minute}
+var cfg = vrt.Config{Preempt: coresim.InterComponent, NoLockPoints: true, FreeSwitchCost: true, Horizon: 30 * time.Minute}
 
 func agents() []*coresim.Agent {
 	return []*coresim.Agent{{ID: "agentA", Host: "hostA", Attributes: map[string]string{"machine_id": "hostA"}, Cpus: 16, Mem: 16384, PortLo: 9000, PortHi: 40000}}
